@@ -4,6 +4,7 @@ package main
 
 import (
 	"fmt"
+	"os"
 	"go/constant"
 	"go/token"
 	"go/types"
@@ -793,10 +794,11 @@ func (fc *FuncCtx) execFunc(fr *Frame, st0 *State) []retInfo {
 					// every return statement must be reachable under the contract's assumptions (vacuity guard),
 					// unless the contract lists it as unreachable
 					fc.nRet++
-					name := fmt.Sprintf("%s#canary.return%d", fc.short, fc.nRet)
+					key := fc.returnKey(t)
+					name := fmt.Sprintf("%s#canary.return[%s]", fc.short, key)
 					expectDead := false
 					for _, u := range fc.spec.Unreach {
-						if u == fmt.Sprintf("return%d", fc.nRet) {
+						if u == key || u+"#1" == key {
 							expectDead = true
 						}
 					}
@@ -1519,4 +1521,34 @@ func (v *Verifier) assumeGlobals(st *State, alloc0 *Term) {
 			st.assume(c, c.Eq(c.Select(v.getGlobal(st, v.heapKeyFor(el)), g), c.BigInt(n)))
 		}
 	}
+}
+
+// returnKey identifies a return statement by its source text and its rank among the return statements of the function with
+// the same text (in source order), e.g. "return nil#2": stable under edits elsewhere in the function.
+func (fc *FuncCtx) returnKey(r *ssa.Return) string {
+	v := fc.v
+	text := func(p token.Pos) string {
+		pos := v.fset.Position(p)
+		lines, ok := v.srcLines[pos.Filename]
+		if !ok {
+			if raw, err := os.ReadFile(pos.Filename); err == nil {
+				lines = strings.Split(string(raw), "\n")
+			}
+			v.srcLines[pos.Filename] = lines
+		}
+		if pos.Line >= 1 && pos.Line <= len(lines) {
+			return strings.TrimSpace(lines[pos.Line-1])
+		}
+		return fmt.Sprintf("line %d", pos.Line)
+	}
+	mine := text(r.Pos())
+	rank := 1
+	for _, b := range fc.fn.Blocks {
+		for _, ins := range b.Instrs {
+			if o, ok := ins.(*ssa.Return); ok && o != r && o.Pos() < r.Pos() && text(o.Pos()) == mine {
+				rank++
+			}
+		}
+	}
+	return fmt.Sprintf("%s#%d", mine, rank)
 }
